@@ -11,12 +11,15 @@
   outside a block, every label operand converts (defined, not external, fits), and the non-empty blocks start at distinct
   addresses (C01: the overlap check makes every inserted block's start fresh).
   and no two blocks of the object file overlap (`accepted_blocks_disjoint`, Lemmas/Disjoint.lean).
-  Not proved: the converse (every well-formed program is accepted);
+  Converse for the second pass (`second_pass_accepts`): a structured program whose statements all convert and whose non-empty
+  blocks do not overlap is accepted by pass 2.
+  Not proved: the converse for pass 1 (no label conflict and no block-size error ⇒ pass 1 succeeds) as one statement;
   these are what the correspondence check decides with an independent well-formedness scan over programs with injected faults.
 -/
 import Lc3V.Lemmas.C01Core
 import Lc3V.Props.C01
 import Lc3V.Lemmas.Disjoint
+import Lc3V.Lemmas.Pass2Iff
 set_option linter.unusedSimpArgs false
 namespace Lc3V.C02
 open Lc3V
@@ -163,8 +166,19 @@ theorem accepted_blocks_disjoint (stmts : List Stmt) (src : Option (List Char)) 
     obj.blocks.Pairwise (fun x y => x.1 + x.2.length ≤ y.1) ∧ ∀ x ∈ obj.blocks, x.2 ≠ [] :=
   assembled_blocks_disjoint stmts src obj h
 
+/-- **the second pass accepts exactly the programs whose words can be produced and whose blocks are disjoint** (converse
+    direction; the forward direction is `accepted_operands` + `accepted_blocks_disjoint`): for a structured program — closed
+    blocks, `.external` declarations outside — and any symbol table `t`, if every block's statements convert
+    (`bodyWords`: each label operand defined, not external, in range — C01.label_operand; each `.fill LABEL` defined) and no
+    non-empty block overlaps an earlier non-empty one, the second pass succeeds, and its block list is the blocks in order -/
+theorem second_pass_accepts (t : SymTab) (blks : List Blk) (tail : List Stmt)
+    (hwf : ∀ b ∈ blks, b.WF ∧ ∀ s ∈ b.gap, isExternal s.nucleus = true) (ht : ∀ s ∈ tail, isExternal s.nucleus = true)
+    (hws : ∀ b ∈ blks, ∃ ws, bodyWords t b.a b.body = .ok ws) (hpw : blks.Pairwise (BlkClear t)) :
+    (blks.flatMap Blk.stmts ++ tail).foldlM (pass2Step t) ⟨[], none⟩ = .ok ⟨blks.foldl (addBlk t) [], none⟩ :=
+  pass2_accepts t blks [] tail hwf ht hws hpw (fun _ _ _ _ _ x hx => by cases hx)
+
 def obligations : List Lean.Name :=
-  [``accepted_structure, ``accepted_operands, ``accepted_blocks_disjoint, ``Lc3V.all_disjoint_of_neighbours, ``shift_zero, ``shift_ok, ``shift_io, ``shift_wrap, ``shift_keeps_flag, ``labels_outside_block, ``nested_orig,
+  [``second_pass_accepts, ``accepted_structure, ``accepted_operands, ``accepted_blocks_disjoint, ``Lc3V.all_disjoint_of_neighbours, ``shift_zero, ``shift_ok, ``shift_io, ``shift_wrap, ``shift_keeps_flag, ``labels_outside_block, ``nested_orig,
    ``end_without_orig, ``stmt_outside_block, ``unclosed_orig, ``external_operand, ``undefined_operand,
    ``C01.addLabel_spec, ``C01.addLabel_conflict, ``C01.label_operand]
 
